@@ -3,22 +3,26 @@ package main
 func init() {
 	register(&propInfo{
 		ID:          "C09",
-		Explanation: "Decides the structural presence rules: (T.ptr) PointerWrapper.Omit/Size/Append never consult the pointee's Omit and pass the tag through unchanged (a present zero keeps its tag), and PointerWrapper.Read allocates under the nil test and always delegates, returning exactly the delegated Read's results (no early return on empty data); (T.null.omit) for every codec of package null Omit is the negation of the Valid flag and nothing else; (T.null.read) every success return of their Read is dominated by a store of true to Valid or a SetValid call; (T.presence) Descriptor() sets ExplicitPresence for exactly PointerWrapper and the null codecs.",
+		Explanation: "Decides the structural presence rules: (T.ptr) PointerWrapper.Omit/Size/Append never consult the pointee's Omit and pass the tag through unchanged (a present zero keeps its tag), and PointerWrapper.Read allocates under the nil test and always delegates, returning exactly the delegated Read's results (no early return on empty data); (T.null.omit) for every codec of package null Omit is the negation of the Valid flag and nothing else; (T.null.read) every success return of their Read is dominated by a store of true to Valid or a SetValid call; (T.presence) Descriptor() sets ExplicitPresence for exactly PointerWrapper and the null codecs; (X.clear.mapslot) a map entry without a value resets the slot mapassign returned, so an encoded nil reads back nil even into a map that already holds the key.",
 		NotDecided:  "The map-entry case (zero key + value that encodes to zero bytes reads back nil: map[string]*string{\"\": &\"\"}) – readMapEntry decides 'value absent' by offset < len(data); no sound structural rule separates that from a correct length test without modelling the entry grammar, so it is described in DESIGN.md §5 (D19) and not reported by any check. Value-level round trips.",
 		Assumptions: []string{"A5"},
 		Run: func(c *Ctx) {
 			rulePointerWrapper(c)
 			ruleNullCodecs(c)
+			ruleNullValue(c)
 			rulePresenceFlag(c)
+			ruleMapSlot(c)
 		},
 	})
 	register(&propInfo{
 		ID:          "C10",
-		Explanation: "Decides that re-used memory is never read into uncleared and that the struct codec leaves absent fields alone: (X.clear.pool) every Codec.Read whose target is memory from a sync.Pool (traced interprocedurally from Pool.Get to the parameter that receives it) is dominated by a typedmemclr/typedmemmove-zero of that pointer; (X.clear.slice) every Codec.Read into an element of a backing array reached through the target's slice header is preceded on every path by a fresh allocation of the array or a clearing call/loop (must-pass-through on the CFG), scalar wrappers being exempt because (X.scalarstore) every scalar codec's success return is dominated by a store to the target; (X.absent) StructCodec.Read passes the target only to field codecs' Read and never stores into it; (X.state) the shared mutable state reachable from decode/encode/build is exactly {MapCodec.kPool, InternedStringCodec.strings+Mutex, baseRegistry.codecRegistry} and no package-level variable is written after init.",
+		Explanation: "Decides that re-used memory is never read into uncleared and that the struct codec leaves absent fields alone: (X.clear.pool) every Codec.Read whose target is memory from a sync.Pool (traced interprocedurally from Pool.Get to the parameter that receives it) is dominated by a typedmemclr/typedmemmove-zero of that pointer; (X.clear.slice) every Codec.Read into an element of a backing array reached through the target's slice header is preceded on every path by a fresh allocation of the array or a clearing call/loop (must-pass-through on the CFG), scalar wrappers being exempt because (X.scalarstore) every scalar codec's success return is dominated by a store to the target; (X.clear.mapslot) every path from mapassign to a success return writes the value slot through the value codec or clears it (an entry without a value resets an existing key's slot); (X.absent) StructCodec.Read passes the target only to field codecs' Read and never stores into it; (X.state) the shared mutable state reachable from decode/encode/build is exactly {MapCodec.kPool, InternedStringCodec.strings+Mutex, baseRegistry.codecRegistry} and no package-level variable is written after init.",
 		NotDecided:  "The merge rules as value-level statements; that the clearing loop's range covers the read loop's range (only must-pass-through is shown).",
 		Assumptions: []string{"A3", "A4", "A5"},
 		Run: func(c *Ctx) {
 			ruleClearBeforeRead(c)
+			rulePoolLifetime(c)
+			ruleMapSlot(c)
 			ruleScalarStore(c)
 			ruleStructUntouched(c)
 			ruleSharedStateInventory(c)
